@@ -91,6 +91,30 @@ Definition get_data (st : Z) (body : option json) : outcome :=
   | Some _ => OInvalid                          (* not isinstance(response_json, dict) *)
   end.
 
+(* ---- str(exception): GraphQLClientHttpError / InvalidResponseError / GraphQLError / MultiError __str__.
+   None = __str__ returns a non-string (a message that is not a str) and str() raises TypeError ---- *)
+Definition http_error_text : string := "HTTP status code: ".
+Definition invalid_text : string := "Invalid response format.".
+Definition multi_sep : string := "; ".
+
+Definition gerror_str (g : gerror) : option string :=
+  match ge_message g with JStr s => Some s | _ => None end.
+
+Fixpoint join_opt (l : list (option string)) : option string :=
+  match l with
+  | [] => Some ""
+  | [x] => x
+  | x :: r => match x, join_opt r with Some a, Some b => Some (a ++ multi_sep ++ b) | _, _ => None end
+  end.
+
+Definition outcome_str (o : outcome) : option string :=
+  match o with
+  | OHttpError st => Some (http_error_text ++ z_to_string st)
+  | OInvalid => Some invalid_text
+  | OMulti errs _ => join_opt (map gerror_str errs)
+  | _ => None
+  end.
+
 (* ---- the generated client method: data = self.get_data(response); return M.model_validate(data)
    [validate] stands for the result model's validation (C01); None = pydantic ValidationError ---- *)
 Inductive mresult (V : Type) :=
@@ -169,9 +193,17 @@ Definition run_getdata (e : sexp) : sexp :=
       | Some s, Some body =>
           L [outcome_to_sexp (get_data s body);
              L [sB (h_http s body); sB (h_invalid s body); sB (h_errors s body); sB (h_data s body)];
-             sB (spec_body body)]
+             sB (spec_body body);
+             sOpt (fun x => A x) (outcome_str (get_data s body))]
       | _, _ => sErr "get_data: bad arguments"
       end
+  | L [A "constants"] =>
+      L [L [A "body_keys"; A "data"; A "errors"];
+         L [A "error_probe";
+            match from_dict (JObj [("message", JInt 1); ("locations", JInt 2); ("path", JInt 3); ("extensions", JInt 4)]) with
+            | inr g => gerror_to_sexp g | inl _ => sErr "probe" end];
+         L [A "texts"; A http_error_text; A invalid_text; A multi_sep];
+         L [A "success_range"; sZ 200; sZ 299; sB (is_success 199); sB (is_success 200); sB (is_success 299); sB (is_success 300)]]
   | L [A "truthy"; j] =>
       match json_of_sexp j with Some v => sB (py_truthy v) | None => sErr "truthy: bad json" end
   | _ => sErr "getdata: bad command"
